@@ -24,11 +24,14 @@ inductive Outcome where
   | corrupt         -- the object is there but is not valid JSON
   | badVersion      -- valid JSON with an unsupported version
   | failed          -- any other error: transient failure of the read
+  | bodyError       -- the call succeeds, then the returned reader breaks while the body is read
   deriving DecidableEq, Repr
 
 /-- what the code makes of one read: does it leave the view incomplete (the sync fails)? -/
 def breaksSync : ReadKind → Outcome → Bool
   | _, .ok => false
+  | _, .bodyError => true                    -- io.ReadAll fails BEFORE anything is decoded: "read meta file" /
+                                             -- "read file" errors are plain errors, never "corrupted" / "unmarshal"
   | .listing, _ => true                      -- "BaseFetcher: iter bucket"
   | .existsMeta, _ => true                   -- "meta.json file exists: …" (Exists has no not-found error)
   | .getMeta, .notFound => false             -- ErrorSyncMetaNotFound: partial block
@@ -48,6 +51,7 @@ def breaksSync : ReadKind → Outcome → Bool
     object / it is a partial upload") -/
 def readFailed : ReadKind → Outcome → Bool
   | _, .failed => true
+  | _, .bodyError => true
   | _, _ => false
 
 def syncFails (reads : List (ReadKind × Outcome)) : Bool := reads.any fun r => breaksSync r.1 r.2
